@@ -29,7 +29,9 @@ def slots_for(ctx, tier):
         flip = ctx.rng.random() < 0.5
         if tier == "thorough":
             return [("testify", True), ("testify", False), ("matryer", True), ("matryer", False), ("testify", None), ("matryer", None)]
-        if prog["fam"] in ("pkgs", "generic", "mname", "local", "unnamed", "multi") or prog["idclass"] in ("typename", "caseclash"):
+        if prog["fam"] == "multi":        # 5-7 interfaces per file: two slots, the placement flips with the seed
+            return [("testify", flip), ("matryer", not flip), ("matryer", flip)]
+        if prog["fam"] in ("pkgs", "generic", "mname", "local", "unnamed") or prog["idclass"] in ("typename", "caseclash"):
             return [("testify", True), ("testify", False), ("matryer", True), ("matryer", False)]
         return [("testify", flip), ("matryer", not flip)]
     return f
@@ -182,7 +184,7 @@ def run_cases(ctx, sp, worlds, allcases, pids, ncov, aliased, renamed):
     # aliased must follow the traversal order, never a map order.  Generate them two more times and compare the bytes.
     import hashlib
     same = [cs for cs in allcases if cs.pred.get("samename") and cs.mockery[0]]
-    same = ctx.rng.sample(same, min(60, len(same)))
+    same = ctx.rng.sample(same, min(30, len(same)))
     n_nondet = 0
     if same:
         def digest(cs):
